@@ -96,6 +96,11 @@ CHECKS = {
         technique="grammar-based + mutation-based generation of byte strings, differential against tri-state reference parsers; libFuzzer target with the same oracle in the thorough tier",
         text="Millions of byte strings per run for both readers: grammar-based well-formed files with all format-defined decorations, targeted corruptions of each listed ill-formedness class, byte-level mutations, token soup, raw bytes (invalid UTF-8, NUL). No panic; Accept => exactly the declared labels in order and attack set; Reject => Err; Unspecified => Err or the natural reading; read_arg_from_str in and out of range.",
         note="trusted: refparse.rs and its list of unspecified inputs (DESIGN.md 3.5); declared sizes >10^5 excluded and counted"),
+    "C11": dict(
+        cat="exploration", ref="4 C11",
+        technique="metamorphic property-based testing on frameworks of 20-300 arguments (renaming, reordering, duplication, format switch, disjoint union, component removal) plus cross-semantics consistency relations",
+        text="Frameworks far beyond the brute-force oracle, assembled from small blocks into components of very different sizes; 2-4 random transformations composed; all 14 DC/DS statuses of 4-8 queried arguments must be unchanged (ST: by the stated rule on stable extensions of the added/removed part), returned extensions must satisfy polynomial necessary conditions, and the answers of the 21 problems on each framework must satisfy the listed consistency relations (and their textbook consequences).",
+        note="relations are necessary conditions only; trusted: the polynomial checkers, oracle.rs on the small added/removed parts"),
 }
 
 NOT_YET = "check not built yet in this session (work in progress; see DESIGN.md section 4 for the planned check)"
